@@ -31,7 +31,7 @@ fn try_decrypt(bytes: &[u8], key: &SymmetricKey) -> Result<Option<Envelope>, cra
 pub fn run(ctx: &Ctx) -> i32 {
     let th = ctx.tier.thorough();
     let mut trees = families::marked(if th { 7 } else { 6 }); // unique markers: the subject digest occurs at one position only
-    trees.extend(families::decode_only().into_iter().take(2)); trees.extend(families::nsn()); trees.extend(families::valued()); // nodes whose subject is a node
+    trees.extend(families::decode_only().into_iter().take(2)); trees.extend(families::nsn()); trees.extend(families::valued()); trees.extend(families::decorated_obscured()); // nodes whose subject is a node
     let keys = [bind::key0(), bind::key1()];
     let nonces = [bind::nonce0(), bind::nonce1()];
     let full_bits_for = usize::MAX; // quick: all bit flips on the first 12 trees, one key/nonce; pristine checks on all
